@@ -9,10 +9,20 @@ import (
 )
 
 func New(ctxt *build.Context, fset *token.FileSet) types.Importer {
+	return NewWithPackages(ctxt, fset, nil)
+}
+
+// NewWithPackages is like New, but the importer starts with the given
+// packages already imported: a package that imports one of them
+// gets that very package instead of a second copy of it.
+func NewWithPackages(ctxt *build.Context, fset *token.FileSet, packages map[string]*types.Package) types.Importer {
 	imp := importer.ForCompiler(fset, "source", nil)
 	ifaceVal := *(*iface)(unsafe.Pointer(&imp))
 	srcImp := (*srcImporter)(ifaceVal.data)
 	srcImp.ctxt = ctxt
+	for path, pkg := range packages {
+		srcImp.packages[path] = pkg
+	}
 	return imp
 }
 
@@ -22,8 +32,8 @@ type iface struct {
 }
 
 type srcImporter struct {
-	ctxt *build.Context
-	_    *token.FileSet
-	_    types.Sizes
-	_    map[string]*types.Package
+	ctxt     *build.Context
+	_        *token.FileSet
+	_        types.Sizes
+	packages map[string]*types.Package
 }
